@@ -230,11 +230,58 @@ def function(ip: Interp, fn: PyConst, args, kwargs, n):
         # signature accepts -- assumed contract: behaves as the call fun(*args)
         ip.w.assumptions.add('boundcall(fun, known, *args) is assumed to behave as fun(*args) for the arguments fun accepts')
         f, _known, *rest = args
+        if isinstance(f, FuncVal) and f.contract == 'ACTION':
+            from .interp import StarV
+            node = rest[0]
+            params = next((r.value for r in rest[1:] if isinstance(r, StarV)), PyTuple([]))
+            kwparams = kwargs.get('**', Val.vdict(z3.K(z3.StringSort(), z3.BoolVal(False)), z3.K(z3.StringSort(), Val.none)))
+            c = ip.w.registry.generic['ACTION']
+            return ip.call_contract(c, None, [f, node, params, kwparams], {}, n)
         if isinstance(f, FuncVal):
             c = ip.w.registry.generic[f.contract]
             nparams = len(c.sig) - 1
             return ip.call_contract(c, None, [f, *rest[:nparams]], {}, n)
         return ip.call(f, rest, kwargs, n)
+    if name in ('ismethod', 'is_func'):
+        (f,) = args
+        if isinstance(f, (FuncVal, Opaque)):
+            return ip.w.uf(f'py_{name}', z3.IntSort(), z3.BoolSort())(f.ident)
+        return False
+    if name in ('is_ok', 'is_err', 'ok_res', 'is_failure'):
+        O = S.UNIONS['Outcome']
+        x = args[0]
+        if name == 'is_ok':
+            return O.is_o_ok(x)
+        if name == 'is_err':
+            return O.is_o_err(x)
+        if name == 'ok_res':
+            return O.o_ok__res(x)
+        return z3.And(O.is_o_err(x), ip.w.exc.is_sub(O.o_err__cls(x), args[1]))
+    if name == 'same_func':
+        f, ident = args
+        if f is None:
+            return True
+        return f.ident == ip.as_int(ident, n)
+    if name == 'store':
+        a, k, v = args
+        return z3.Store(a, ip.coerce_sort(k, a.sort().domain(), n), ip.coerce_sort(v, a.sort().range(), n))
+    if name == 'o_none':
+        return S.UNIONS['Outcome'].o_none
+    if name == 'o_ok':
+        return S.UNIONS['Outcome'].o_ok(ip.coerce_sort(args[0], S.RECORDS['RuleResultR'], n))
+    if name == 'grown':
+        new, old = args
+        b = ip.seq_from_end(old, 1)
+        below = b[0] if b is not None else z3.Extract(old, 0, z3.Length(old) - 1)
+        n0 = z3.Length(below)
+        return z3.And(z3.Length(new) >= n0 + 1, z3.Extract(new, 0, n0) == below)
+    if name == 'memo_ok':
+        (d,) = args
+        O = S.UNIONS['Outcome']
+        k = z3.Const('k!memo', d.f['mkeys'].sort().domain())
+        v = z3.Select(d.f['mvals'], k)
+        return z3.ForAll([k], z3.Implies(z3.And(z3.Select(d.f['mkeys'], k), O.is_o_err(v)),
+                                         ip.w.exc.is_sub(O.o_err__cls(v), 'ParseException')))
     if name == 'top_only':
         new, old = args
         a = ip.seq_from_end(new, 1)
@@ -409,6 +456,13 @@ def isinstance_(ip: Interp, x, c, n):
 
 def _isinstance1(ip, x, cc: PyConst, n):
     name = cc.name
+    O = S.UNIONS.get('Outcome')
+    if O is not None and z3.is_expr(x) and x.sort() == O:
+        if cc.kind == 'excclass':
+            return z3.And(O.is_o_err(x), ip.w.exc.is_sub(O.o_err__cls(x), name))
+        if cc.kind in ('record', 'class') and name == 'RuleResultR':
+            return O.is_o_ok(x)
+        return False
     if isinstance(x, ExcV):
         if cc.kind == 'excclass':
             return ip.w.exc.is_sub(x.cls, name)
@@ -589,6 +643,15 @@ def method(ip: Interp, recv, name, t: PyConst, args, kwargs, n):
         return out
     if t.kind == 'dictmethod':
         return dict_method(ip, recv, t.name, args, kwargs, n)
+    if t.kind == 'memomethod':
+        d = recv
+        ksort = d.f['mkeys'].sort().domain()
+        if name == 'get':
+            k = ip.coerce_sort(args[0], ksort, n)
+            default = args[1] if len(args) > 1 else None
+            return z3.If(z3.Select(d.f['mkeys'], k), z3.Select(d.f['mvals'], k),
+                         ip.coerce_sort(default, d.f['mvals'].sort().range(), n))
+        ip.oos(f'memo-table method {name}', n)
     if t.kind == 'listmethod':
         return list_method(ip, recv, name, args, n)
     if t.kind == 'opaquemethod':
